@@ -97,10 +97,29 @@ def r155(ctx, fx):
     ctx.floor(rid, 150, "language-server bodies scanned")
 
 
+def shared_guard(bodies):
+    """some body asks Analysis::is_used_by_symbol_defined_elsewhere and returns early when the answer (directly or through a local) is true"""
+    for b in bodies:
+        if not b.d.get("hir"):
+            continue
+        names = set()
+        for n in lib.hwalk(b.hir["body"]):
+            if n.get("k") == "let" and "init" in n and any(True for _ in lib.hir_calls(n["init"], "Analysis::is_used_by_symbol_defined_elsewhere")):
+                names |= {q["name"] for q in lib.hwalk(n["pat"]) if q.get("k") == "bind"}
+        for n in lib.hwalk(b.hir["body"]):
+            if n.get("k") == "if":
+                c = n["cond"]
+                asks = any(True for _ in lib.hir_calls(c, "Analysis::is_used_by_symbol_defined_elsewhere")) or \
+                    any(x.get("k") == "path" and (x.get("res") or {}).get("dk") == "Local" and x["res"].get("name") in names for x in lib.hwalk(c))
+                if asks and any(x.get("k") == "ret" for x in lib.hwalk(n["then"])):
+                    return True
+    return False
+
+
 def r156(ctx, fx):
     rid = ctx.rule("R15.6", "recorded locations that are not the symbol's name are not rewritten (regression guards for repaired defects): the rename handler compares the "
                    "source text at the definition with the symbol's name in its defining scope and answers nothing when they differ (generated symbols: loop "
-                   "`index`, block `-`/`+`); it leaves `super` usages alone; it narrows an import's `name as alias` usage to the name; add_symbol records further "
+                   "`index`, block `-`/`+`); it leaves `super` usages alone; it narrows an import's `scope.name as alias` usage to the name and leaves usages under another name (the alias) alone; it answers nothing when an occurrence also stands for a symbol defined elsewhere; add_symbol records further "
                    "definitions of a variable as usages and clears what the analysis knew about a re-used symbol index")
     bodies = rename_bodies(fx)      # the HIR of a function contains the bodies of its closures
     ads = fx.fn("mos_core::codegen::CodegenContext::add_symbol")
@@ -118,6 +137,15 @@ def r156(ctx, fx):
          "loop count / the brace"),
         ("super", calls_any("Identifier::is_super"),
          "the rename handler rewrites `super` usages: renaming a scope turns `lda super.foo` into `lda .foo`"),
+        ("alias-usages", any(
+            x.get("k") == "closure" and any(True for _ in lib.hir_calls(x, "Identifier::is_super")) and any(
+                n.get("k") == "binary" and n.get("op") in ("Eq", "Ne") and "old_name" in repr(lib.hdesc(n)) for n in lib.hwalk(x))
+            for b in bodies if b.d.get("hir") for x in lib.hwalk(b.hir["body"])),
+         "the rename handler edits usages without comparing their text with the symbol's name: where an import gave the symbol another name (`.import foo as bar`), "
+         "`lda bar` is rewritten to the new name of `foo`, which does not exist there"),
+        ("shared-occurrences", shared_guard(bodies),
+         "the rename handler does not check whether an occurrence also stands for a symbol defined elsewhere (a name in a macro body is looked up per invocation): "
+         "renaming `a.target` rewrites the `jmp target` of the macro and the invocation in `b` no longer assembles"),
         ("import-alias", calls_any("Span::subspan"),
          "the rename handler replaces the whole `name as alias` of an import: renaming the imported symbol deletes the alias"),
     ]
